@@ -203,6 +203,39 @@ func checkC11(c *Ctx, r *Report) {
 		r.add("C11.c", "sibling", "unpaired-functions", "every emitter function that reads the IR has a cross-checked sibling", []string{p30, p31}, sites, viol)
 	}
 
+	// the two emitters resolve a status-code collision between the success response and an
+	// @ErrorResponse the same way (registrations overwrite by code: the later one wins)
+	{
+		f30, f31 := w.fn(p30+".generateControllerSpec"), w.fn(p31+".generateControllerSpec")
+		if f30 != nil && f31 != nil && f30.SSA != nil && f31.SSA != nil {
+			v := ""
+			var ss []string
+			order := map[string]string{}
+			for _, e := range []struct {
+				ver, pkg string
+				fi       *FuncInfo
+			}{{"3.0", p30, f30}, {"3.1", p31, f31}} {
+				s, er := w.responseSetSites(e.fi, e.pkg)
+				if s == nil || er == nil {
+					v = e.ver + ": success / error response registrations not found"
+					continue
+				}
+				ss = append(ss, w.pos(s.Pos()), w.pos(er.Pos()))
+				if before, decided := w.takesEffectBefore(e.fi, s, er); !decided {
+					v = e.ver + ": cannot order the success and error response registrations"
+				} else if before {
+					order[e.ver] = "success first (an error response with the same code replaces it)"
+				} else {
+					order[e.ver] = "success last (it replaces an error response with the same code)"
+				}
+			}
+			if v == "" && order["3.0"] != order["3.1"] {
+				v = fmt.Sprintf("%s: the 3.0 emitter registers %s, the 3.1 emitter %s: for a route whose @ErrorResponse repeats the success code the two documents describe different responses", ss[0], order["3.0"], order["3.1"])
+			}
+			r.add("C11.c", "sibling", "response-collision-order", "both emitters let the same response win when an error response repeats the success status code", []string{f30.Key, f31.Key}, ss, v)
+		}
+	}
+
 	// ---- C11.a package-level read-set
 	{
 		rs := func(pkg string) map[string]string {
